@@ -125,8 +125,44 @@ def l1(model: Model, rep: Report):
             # (b) inner loop
             inner = [e for e in bp.events if e.kind == "loop"]
             if not inner:
-                # another way of computing the next layer (nested comprehensions, itertools): not a shape this rule reads
-                raise AnalysisError(f"{construct}: the next layer is not computed by a scan loop over the current layer (shape not recognised; nothing decided)")
+                # the next layer computed as a value: unique_in_order([s for node in LAYER for s in node.get_next_pointers() if s is not endpoint]) -- in any
+                # spelling that fuses to this flat-map (nested comprehensions, chain.from_iterable, a per-node list of successor lists)
+                from ..extreme import fuse_comprehensions
+                from .common import devar
+                nv = bp.env.get(cur_name)
+                v = fuse_comprehensions(devar(nv)) if nv is not None else None
+                fm = None
+                if v is not None and v[0] == "call" and v[1] == ("fn", "array_manipulation.unique_in_order"):
+                    argv = (list(v[2]) + [x for _, x in v[3]])
+                    fm = argv[0] if len(argv) == 1 else None
+                elif v is not None:
+                    w = v
+                    while w[0] == "call" and w[1] in ("list", "tuple") and len(w[2]) == 1 and not w[3]:
+                        w = w[2][0]
+                    if w[0] == "comp" and len(w[3]) == 2:
+                        fm = w
+                        problems.append(f"next layer is {show(v)[:80]} instead of unique_in_order(collected successors)")
+                if fm is None or fm[0] != "comp" or len(fm[3]) != 2:
+                    raise AnalysisError(f"{construct}: the next layer is not computed by a scan loop over the current layer nor as unique_in_order of a flat-map over it (shape not recognised; nothing decided)")
+                (d0, c0), (d1, c1) = fm[3]
+                b0 = [y for y in subterms(d1, lambda y: y[0] == "bound")]
+                nodeb = b0[0] if len(b0) == 1 else None
+                if d0 != CUR or c0:
+                    problems.append("the nodes of the layer are not all visited")
+                if nodeb is None or d1 not in (("call", ("attr", nodeb, "get_next_pointers"), (), ()), ("attr", nodeb, "outgoing_pointers")):
+                    problems.append(f"successors taken from {show(d1)}")
+                elif fm[2][0] != "bound" or fm[2] == nodeb:
+                    problems.append(f"next layer collects {show(fm[2])} instead of the successors")
+                elif list(c1) != [t_not(t_cmp("is", fm[2], endpoint))]:
+                    problems.append("successors are filtered by " + (" and ".join(show(x) for x in c1) or "nothing (the branch endpoint is not excluded)"))
+                for e in flat_events(bp):
+                    if e.kind == "effect" and e.term is not None:
+                        for nm in ("pop", "remove", "clear", "insert", "sort", "reverse", "__delitem__"):
+                            for c in find_calls(e.term, nm):
+                                r = c[1][1] if isinstance(c[1], tuple) and c[1][0] == "attr" else None
+                                if r is not None and r[0] in ("var", "loopvar") and r[1] in ({cur_name} | {r_[1] for r_ in result_vars if r_[0] in ("var", "loopvar")}):
+                                    problems.append(f"{nm}() on {r[1]} changes the collected nodes")
+                continue
             if len(inner) != 1 or inner[0].term != CUR:
                 problems.append("the nodes of the layer are not all visited")
                 continue
